@@ -11,7 +11,7 @@ ID = "C11"
 LEVEL = "fault_enumeration"
 RULE = ("Hypothesis draws a recording (AP/LF/nidq, 1..384 channels, integer or fractional sampling rate, ns_file 1..60 "
         "samples written, metadata announcing fewer / equal / more samples, or lacking the end-of-run size keys for the "
-        "online reader; offline Reader or OnlineReader). For that recording EVERY truncation point of the writer is "
+        "online reader; offline Reader or OnlineReader; ignore_warnings on or off). For that recording EVERY truncation point of the writer is "
         "enumerated: all byte lengths from one complete frame to the full size (all 0..frame-1 trailing bytes) when there "
         "are <= 1600 of them, otherwise every trailing-byte count for the first, last and two drawn frame counts plus "
         "+-1 byte around every frame boundary. cbin sub-case: a compressed stream holding k < announced frames for every k. "
@@ -47,7 +47,9 @@ def _case(draw):
         spec["acquiring"] = draw(st.booleans())
     return {"spec": spec, "ns_file": ns_file, "reader": reader, "content_seed": draw(st.integers(0, 2 ** 31)),
             "pick": [draw(st.integers(0, 10 ** 6)), draw(st.integers(0, 10 ** 6))],
-            "cbin": draw(st.integers(0, 3)) == 0 and reader == "offline", "chunk": draw(st.integers(3, 25))}
+            "cbin": draw(st.integers(0, 3)) == 0 and reader == "offline", "chunk": draw(st.integers(3, 25)),
+            # ignore_warnings is documented as silencing the size-mismatch log for streamed data: same exposed samples
+            "quiet": draw(st.sampled_from([False, False, True]))}
 
 
 def strategy(tier):
@@ -83,7 +85,7 @@ def run_case(case, ctx):
     fs = spec["fs"]
     ctx.label(spec["gen"], "reader_" + case["reader"], "meta_" + ("acquiring" if spec.get("acquiring") else
               "equal" if spec["ns"] == ns_file else "fewer" if spec["ns"] < ns_file else "more"),
-              "fs_frac" if fs != int(fs) else "fs_int")
+              "fs_frac" if fs != int(fs) else "fs_int", "ignore_warnings" if case.get("quiet") else "warnings_on")
     Cls = sg.OnlineReader if case["reader"] == "online" else sg.Reader
     with rec.scratch_dir(ctx) as d:
         binf = rec.write_recording(d, spec, D)
@@ -100,7 +102,7 @@ def run_case(case, ctx):
             if trail * 2 >= frame or (fs != int(fs) and spec["ns"] != n):
                 ctx.nontrivial = True
             ctx.label("trail_ge_half" if trail * 2 >= frame else ("trail_partial" if trail else "trail_0"))
-            sr = ctx.call("C11.open", Cls, binf, sort=False)
+            sr = ctx.call("C11.open", Cls, binf, sort=False, ignore_warnings=bool(case.get("quiet")))
             if sr is ctx.CRASH:
                 return
             try:
@@ -159,7 +161,7 @@ def _run_cbin(case, ctx, sg, d, binf, spec, D, nc, fs):
         cb = rec.compress(b, nc, fs, case["chunk"], keep_bin=False)
         if k != spec["ns"]:
             ctx.nontrivial = True
-        sr = ctx.call("C11.open_cbin", sg.Reader, cb, sort=False)
+        sr = ctx.call("C11.open_cbin", sg.Reader, cb, sort=False, ignore_warnings=bool(case.get("quiet")))
         if sr is ctx.CRASH:
             return
         try:
